@@ -49,9 +49,14 @@ pub fn may_have_internal_overlap(shape: impl SizeArray, strides: impl SizeArray)
         return false;
     }
 
-    // Fast path for common case of contiguous tensor.
+    // Fast path for common case of contiguous tensor. This has no overlap,
+    // unless the element count does not fit in `usize`, in which case offsets
+    // would wrap around and can collide.
     if is_contiguous(&shape, &strides) {
-        return false;
+        return shape
+            .iter()
+            .try_fold(1usize, |len, size| len.checked_mul(size))
+            .is_none();
     }
 
     // Sort dimensions in order of increasing stride.
@@ -72,7 +77,15 @@ pub fn may_have_internal_overlap(shape: impl SizeArray, strides: impl SizeArray)
         if stride <= max_offset {
             return true;
         }
-        max_offset += (shape - 1) * stride;
+        // If the reachable span does not fit in `usize`, offsets computed for
+        // this layout would wrap around and can collide.
+        let Some(span) = (shape - 1)
+            .checked_mul(stride)
+            .and_then(|dim_span| max_offset.checked_add(dim_span))
+        else {
+            return true;
+        };
+        max_offset = span;
     }
     false
 }
